@@ -31,7 +31,7 @@ def run(prop, tier):
             for (b, r, m, lg, cl) in more:
                 jobs.append((xf, ["big", a, b, r, m, lg, cl], "big %d b=%d r=%d mode=%d 2^%d chunk 2^%d" % (a, b, r, m, lg, cl)))
     jobs.sort(key=lambda j: 0 if j[1][0] == "big" else 1)
-    common.parallel(lambda j: common.run_harness(j[0], j[1], acc, "hash_enum " + j[2], timeout=7000, crash_prop=prop), jobs)
+    common.parallel(lambda j: common.run_harness(j[0], j[1], acc, "hash_enum " + j[2], timeout=7000, crash_prop=prop, stall=0 if j[1][0] == "big" else 150), jobs)
     # hash objects are independent: two objects of the same algorithm used by two threads at once, under the controlled scheduler + happens-before monitor
     from checks import mcsched
     sacc = mcsched.run_jobs(prop, tier, [dict(src="harness/sched_c11.c", args=["pair", "-p", 1 if tier == "quick" else 2, "--", a]) for a in range(NALG)])
